@@ -500,6 +500,10 @@ impl TypeChecker {
                         if let Some(method_info) = model.methods.get(method) {
                             let params = method_info.params.clone();
                             let return_type = method_info.return_type.clone();
+                            // A `mut self` method changes the value it is called on: the binding must be `mut`.
+                            if matches!(method_info.receiver, Some(Receiver::Mutable)) {
+                                self.check_place_is_mutable(base, span);
+                            }
                             self.validate_method_call_args(&params, args, &arg_types);
                             return return_type;
                         }
@@ -516,6 +520,9 @@ impl TypeChecker {
                         if let Some(method_info) = class.methods.get(method) {
                             let params = method_info.params.clone();
                             let return_type = method_info.return_type.clone();
+                            if matches!(method_info.receiver, Some(Receiver::Mutable)) {
+                                self.check_place_is_mutable(base, span);
+                            }
                             self.validate_method_call_args(&params, args, &arg_types);
                             return return_type;
                         }
